@@ -274,12 +274,18 @@ class Run:
         t[str(key)] = t.get(str(key), 0) + 1
 
     def mismatch(self, stream: str, case, impl, model, what="impl != model"):
+        if os.environ.get("VERIF_DEBUG") and len(self.mismatches) < 8:
+            print("MISMATCH", json.dumps({"stream": stream, "what": what, "case": case, "impl": impl, "model": model},
+                                         ensure_ascii=False, default=str)[:1500], file=sys.stderr)
         if len(self.mismatches) < 50:
             self.mismatches.append(
                 {"stream": stream, "case": case, "impl": impl, "model": model, "what": what}
             )
 
     def violation(self, stream: str, case, detail):
+        if os.environ.get("VERIF_DEBUG") and len(self.violations) < 8:
+            print("VIOLATION-DETAIL", json.dumps({"stream": stream, "case": case, "detail": detail},
+                                                 ensure_ascii=False, default=str)[:1500], file=sys.stderr)
         if len(self.violations) < 50:
             self.violations.append({"stream": stream, "case": case, "detail": detail})
 
